@@ -36,6 +36,7 @@ run_one() {
   } > /verif/seeded/$id/check_result.txt
   echo "$id $prop exit=$rc"
   git -C /repo worktree remove --force "$wt" >/dev/null 2>&1
+  [ -n "${SEEDED_KEEP:-}" ] && cp -r "$alt/evidence" /tmp/evid-$id 2>/dev/null
   rm -rf "$wt" "$alt"
 }
 export -f run_one
